@@ -31,7 +31,60 @@ structure Mat3 (K : Type) where
 def Mat3.apply [Add K] [Mul K] (m : Mat3 K) (p : V3 K) : V3 K := ⟨m.r1.dot p, m.r2.dot p, m.r3.dot p⟩
 
 /-- move the position of an atom (if it has one), leave everything else -/
-def Atom.move (f : V3 K → V3 K) (a : Atom K) : Atom K := { a with pos := a.pos.map f }
+def Atom.move (f : V3 K → V3 K) (a : Atom K) : Atom K :=
+  match a.pos with
+  | some p => { a with coords := some ⟨some (f p).x, some (f p).y, some (f p).z⟩ }
+  | none => a
+
+theorem Atom.pos_move (f : V3 K → V3 K) (a : Atom K) : (a.move f).pos = a.pos.map f := by
+  unfold Atom.move
+  cases h : a.pos with
+  | none => simp [h]
+  | some p => simp [Atom.pos]
+
+theorem Atom.key_move (f : V3 K → V3 K) (a : Atom K) : (a.move f).key = a.key := by
+  unfold Atom.move; cases a.pos <;> rfl
+
+theorem Atom.attrs_move (f : V3 K → V3 K) (a : Atom K) : (a.move f).attrs = a.attrs := by
+  unfold Atom.move; cases a.pos <;> rfl
+
+theorem Atom.move_of_none (f : V3 K → V3 K) (a : Atom K) (h : a.pos = none) : a.move f = a := by
+  unfold Atom.move; simp [h]
+
+theorem Atom.move_of_some (f : V3 K → V3 K) (a : Atom K) (p : V3 K) (h : a.pos = some p) :
+    a.move f = ⟨a.key, some ⟨some (f p).x, some (f p).y, some (f p).z⟩, a.attrs⟩ := by
+  unfold Atom.move; simp [h]
+
+theorem Atom.move_move (f g : V3 K → V3 K) (a : Atom K) :
+    (a.move f).move g = a.move (fun p => g (f p)) := by
+  cases hp : a.pos with
+  | none => rw [Atom.move_of_none f a hp, Atom.move_of_none g a hp, Atom.move_of_none _ a hp]
+  | some p =>
+    rw [Atom.move_of_some f a p hp, Atom.move_of_some _ a p hp]
+    exact Atom.move_of_some g _ (f p) rfl
+
+/-- the position is defined iff the attribute is there and every coordinate is finite -/
+theorem Atom.pos_eq_some_iff (a : Atom K) (p : V3 K) :
+    a.pos = some p ↔ a.coords = some ⟨some p.x, some p.y, some p.z⟩ := by
+  unfold Atom.pos
+  cases a.coords with
+  | none => simp
+  | some c =>
+    obtain ⟨x, y, z⟩ := c
+    cases x <;> cases y <;> cases z <;> simp
+    · constructor
+      · intro h; subst h; exact ⟨rfl, rfl, rfl⟩
+      · rintro ⟨rfl, rfl, rfl⟩; rfl
+
+/-- a missing attribute or a single non-finite coordinate: no position -/
+theorem Atom.pos_eq_none_iff (a : Atom K) :
+    a.pos = none ↔ (a.coords = none ∨ ∃ c, a.coords = some c ∧ (c.x = none ∨ c.y = none ∨ c.z = none)) := by
+  unfold Atom.pos
+  cases a.coords with
+  | none => simp
+  | some c =>
+    obtain ⟨x, y, z⟩ := c
+    cases x <;> cases y <;> cases z <;> simp
 
 def positioned (a : Atom K) : Bool := a.pos.isSome
 
@@ -322,7 +375,8 @@ theorem terms_congr (w w' : Option String) (tbl tbl' : List (Int × K)) (g : Lis
 
 theorem atomWeight_move (w : Option String) (tbl : List (Int × K)) (f : V3 K → V3 K) (a : Atom K) :
     atomWeight w tbl (a.move f) = atomWeight w tbl a := by
-  cases w <;> rfl
+  unfold atomWeight centerFactor
+  rw [Atom.key_move, Atom.attrs_move]
 
 theorem terms_move (w : Option String) (tbl : List (Int × K)) (f : V3 K → V3 K) (g : List (Atom K)) :
     terms w tbl (g.map (Atom.move f)) = (terms w tbl g).map (fun t => (t.1, f t.2)) := by
@@ -331,10 +385,10 @@ theorem terms_move (w : Option String) (tbl : List (Int × K)) (f : V3 K → V3 
   | cons a r ih =>
     cases hp : a.pos with
     | none =>
-      have hp' : (a.move f).pos = none := by simp [Atom.move, hp]
+      have hp' : (a.move f).pos = none := by rw [Atom.pos_move, hp]; rfl
       rw [List.map_cons, terms_cons_none _ _ _ _ hp', terms_cons_none _ _ _ _ hp, ih]
     | some p =>
-      have hp' : (a.move f).pos = some (f p) := by simp [Atom.move, hp]
+      have hp' : (a.move f).pos = some (f p) := by rw [Atom.pos_move, hp]; rfl
       rw [List.map_cons, terms_cons_some _ _ _ _ _ hp', terms_cons_some _ _ _ _ _ hp, ih,
         atomWeight_move, List.map_cons]
 
